@@ -42,7 +42,7 @@ SAFETY = ["TypeOK", "C11_AdmittedOnce", "C11_ForwardOnce", "C11_NeverToListed"]
 def constants(n, bad, prof, dup, forge, extra=None):
     items, k, p, o, _ = PROFILES[prof]
     c = {"Node": tla_set(NODES[n]), "Bad": tla_set(bad), "Item": items, "Kind": "<- " + k, "Parent": "<- " + p,
-         "Origin": "<- " + o, "MaxDup": str(dup), "MaxForge": str(forge)}
+         "Origin": "<- " + o, "MaxDup": str(dup), "MaxForge": str(forge), "AllowPoison": "FALSE"}
     c.update(extra or {})
     return c
 
@@ -183,7 +183,7 @@ def drive_and_validate(wd, drivebin, behaviours, invariants, props):
         d = os.path.join(wd, key)
         copy_specs(d, ["GossipNet.tla", "GossipNetTrace.tla"])
         const = {"Node": "<- TNode", "Bad": "<- TBad", "Item": "<- TItem", "Kind": "<- TKind", "Parent": "<- TParent",
-                 "Origin": "<- TOrigin", "MaxDup": "1000", "MaxForge": "1000", "TraceFile": '"trace.ndjson"'}
+                 "Origin": "<- TOrigin", "MaxDup": "1000", "MaxForge": "1000", "AllowPoison": "TRUE", "TraceFile": '"trace.ndjson"'}
         write_cfg(os.path.join(d, "t.cfg"), "TSpec", const, invariants + ["Conforms"], props, postcondition="Accepted")
         fo = open(os.path.join(d, "tlc.out"), "w")
         jobs.append((key, d, subprocess.Popen(["java", "-Xss32m", "-Xmx3g", "-cp", TLC_CP, "tlc2.TLC", "-workers", "1", "-metadir",
@@ -252,6 +252,18 @@ def check(prop, tier):
             print("KNOWN-FINDING: property=C11 a vertex that reaches a relay before its parent is admitted there through the "
                   "parent fetch and the orphan retry, which do not forward: nodes behind the relay never receive either vertex "
                   "(F13; witness replayed on this tree: line n1-n2-n3, v2 delivered to n2 before v1)", flush=True)
+    if prop == "C12":
+        # known finding F14 (a forged ITEM, not a forged list): replay the witness against the strict claim
+        tri = {"n1": ["n2", "n3"], "n2": ["n1", "n3"], "n3": ["n1", "n2"]}
+        wb = [dict(id="C12-witness-F14", nodes=NODES[3], peers=tri, bad=["n3"], items=PROFILES["one"][4], drain=True, profile="one",
+                   ops=[{"op": "originate", "i": "v1"}, {"op": "receive", "f": "n1", "t": "n3", "i": "v1"},
+                        {"op": "poison", "b": "n3", "t": "n2", "i": "v1"}])]
+        kv, _, _, _ = drive_and_validate(os.path.join(wd, "kf"), drivebin, wb, ["C11_AllReachedAtEnd"], [])
+        if any(v["what"] == "C11_AllReachedAtEnd" for v in kv):
+            print("KNOWN-FINDING: property=C12 a malicious relay that knows a vertex's hash announces it with corrupted content; the "
+                  "recent-hash memory is written before the content is verified, so the honest copy that arrives later is dropped "
+                  "as a repeat and the node never admits the vertex (F14: a forged item, not a forged gossiper list; witness replayed "
+                  "on this tree: triangle, n3 adversarial, n2 poisoned before n1's message arrives)", flush=True)
     wall = time.time() - t0
     cov = {"states": mc["distinct"], "transitions": mc["generated"], "traces_validated_against_impl": nb - len(violations),
            "samples": [{"peers": b["peers"], "bad": b["bad"], "ops": b["ops"][:10]} for b in behaviours[:2]],
